@@ -5,6 +5,8 @@
 #include <tapkee/defines.hpp>
 #include <tapkee/external/barnes_hut_sne/tsne.hpp>
 
+#include <omp.h>
+
 using namespace vh;
 
 namespace
@@ -753,18 +755,25 @@ void run_gradient(const Case& c, Result& r)
     std::srand((unsigned)c.i("srand", 1));
     // joint P exactly as run() builds it (exact mode), from an independent evaluation of the conditional Gaussians is not needed:
     // any symmetric non-negative P summing to one defines a KL cost whose gradient the routine must follow.
-    tapkee::DenseMatrix P(N, N);
+    if (c.has("threads"))
+        omp_set_num_threads((int)c.i("threads", 8)); // large cases: whatever the library runs in parallel runs on several threads
+    Mat Pj;
+    if (!c.i("big", 0))
     {
-        std::vector<double> Xc = X;
-        t.computeGaussianPerplexity(Xc.data(), N, D, P.data(), perp);
+        tapkee::DenseMatrix P(N, N);
+        {
+            std::vector<double> Xc = X;
+            t.computeGaussianPerplexity(Xc.data(), N, D, P.data(), perp);
+        }
+        Pj.resize(N, N);
+        for (int n = 0; n < N; ++n)
+            for (int m = 0; m < N; ++m)
+                Pj(n, m) = n == m ? 0.0 : P.data()[(size_t)n * N + m] + P.data()[(size_t)m * N + n];
+        Pj /= Pj.sum();
     }
-    Mat Pj(N, N);
-    for (int n = 0; n < N; ++n)
-        for (int m = 0; m < N; ++m)
-            Pj(n, m) = n == m ? 0.0 : P.data()[(size_t)n * N + m] + P.data()[(size_t)m * N + n];
-    Pj /= Pj.sum();
     std::vector<double> Y = make_map(c, N, nd, g);
-    // exact gradient vs central finite differences
+    // exact gradient vs central finite differences (O(N^3): not for the large cases)
+    if (!c.i("big", 0))
     {
         tapkee::DenseMatrix Pin = Pj; // symmetric, so row/column-major reading is the same
         std::vector<double> dC((size_t)N * nd, 0.0);
@@ -863,12 +872,30 @@ void run_gradient(const Case& c, Result& r)
                 break;
             }
         }
+        // the gradient is a function of (P, map, theta): evaluating it again on the same map gives the same vector
+        {
+            std::vector<double> a((size_t)N * 2, 0.0), b((size_t)N * 2, 0.0);
+            std::vector<double> Ya = Y, Yb = Y;
+            t.computeGradient(NULL, row, col, val, Ya.data(), N, 2, a.data(), 0.5);
+            t.computeGradient(NULL, row, col, val, Yb.data(), N, 2, b.data(), 0.5);
+            double e = 0, na = 0;
+            for (size_t i = 0; i < a.size(); ++i)
+            {
+                e = std::max(e, std::fabs(a[i] - b[i]));
+                na = std::max(na, std::fabs(a[i]));
+            }
+            r.maxnum("bh_grad_repeat_dev", e / std::max(na, 1e-300));
+            if (e > 1e-10 * na)
+                r.violation("tsne:bh-gradient-not-reproducible",
+                            sf("two evaluations at theta=0.5 on the same map differ by %.3g of the largest entry (N=%d, %d threads)", e / std::max(na, 1e-300), N,
+                               omp_get_max_threads()));
+        }
         free(row);
         free(col);
         free(val);
     }
     r.nontrivial = true;
-    r.tags.push_back("grad:" + c.s("map", "unit") + sf(":dims%d", nd));
+    r.tags.push_back("grad:" + c.s("map", "unit") + sf(":dims%d", nd) + (c.i("big", 0) ? sf(":N%d", N) : std::string()));
 }
 
 // hook H3: named intermediate quantities reported by the library under the guard
